@@ -57,7 +57,7 @@ func TestC19(t *testing.T) {
 		}
 		runCase(t, r, i)
 	}
-	r.Require("drops_observed", "kept_declared", "kept_fresh", "kept_pinned", "kept_no_expiry_age", "restarts", "polls", "reads", "payloads_checked", "kept_exactly_at_age", "handle_grabbed_during_poll_of_stale_secret", "racing_lookups")
+	r.Require("drops_observed", "kept_declared", "kept_fresh", "kept_pinned", "kept_no_expiry_age", "restarts", "polls", "reads", "payloads_checked", "kept_exactly_at_age", "handle_grabbed_during_poll_of_stale_secret", "racing_lookups", "polls_with_not_found")
 	r.Rule("seeded histories over 2 declarable + 4 undeclared names: a first process started from a crafted cache (last-access stamps incl. 0, stale, fresh, far future), then events {restart from the last payload with a new declared set and expiry age in {0,-1s,1s,1h,30d}; clock jump in {0, age-1s, age, age+1s, 10*age}; read through a handle; obtain a handle without reading; new watcher; lookup; service change; poll}. Distinct = (event kind, expiry-age class, what the poll dropped/kept and why)")
 }
 
@@ -123,6 +123,12 @@ func runCase(t *testing.T, r *evid.Run, idx int) {
 		}
 		r.Distinct("ticker " + tickerKind)
 		trace = append(trace, fmt.Sprintf("START incarnation %d: declared=%v age=%v now=%d ticker=%s cache=%s", inc, decl, age, now, tickerKind, doc))
+		for _, n := range names { // whatever the service had forgotten is back before the next process starts
+			if _, ok := svc.Active(n); !ok {
+				ver[n]++
+				svc.Set(n, ver[n], []byte(fmt.Sprintf("%s#%d", n, ver[n])))
+			}
+		}
 		st, err := setec.NewStore(context.Background(), cfg)
 		if err != nil {
 			fail("newstore-fails", err.Error(), nil)
@@ -144,6 +150,7 @@ func runCase(t *testing.T, r *evid.Run, idx int) {
 			m[d].declared = true
 		}
 		handles := map[string]setec.Secret{}
+		gone := map[string]bool{} // names the service currently answers "not found" for
 		seenWrites := cache.NumWrites()
 		ageClass := "none"
 		if age > 0 {
@@ -253,7 +260,7 @@ func runCase(t *testing.T, r *evid.Run, idx int) {
 			case x < 11: // lookup of a name the store does not have
 				var cand []string
 				for _, n := range names[2:] {
-					if s := m[n]; s == nil || !s.present {
+					if s := m[n]; (s == nil || !s.present) && !gone[n] {
 						cand = append(cand, n)
 					}
 				}
@@ -295,7 +302,12 @@ func runCase(t *testing.T, r *evid.Run, idx int) {
 					ev = "lookup " + n
 				}
 				m[n] = &mstate{present: true, pinned: true, lastAccess: now}
+			case x < 12 && len(gone) == 0: // the service no longer knows a secret (for now)
+				svc.Remove(pick)
+				gone[pick] = true
+				ev = "service-forgets " + pick
 			case x < 13: // service change (forces a cache write at the next poll)
+				delete(gone, pick)
 				ver[pick]++
 				svc.Set(pick, ver[pick], []byte(fmt.Sprintf("%s#%d", pick, ver[pick])))
 				ev = "service-change " + pick
@@ -330,7 +342,7 @@ func runCase(t *testing.T, r *evid.Run, idx int) {
 				// Sometimes a handle is handed out while the poll is in flight (its first request is
 				// parked): that secret now has a handle and must survive this very poll.
 				var grabbed string
-				if rng.IntN(3) == 0 {
+				if rng.IntN(3) == 0 && len(gone) == 0 {
 					parked := make(chan struct{}, 1)
 					release := make(chan struct{})
 					firstReq := true
@@ -378,9 +390,19 @@ func runCase(t *testing.T, r *evid.Run, idx int) {
 						return
 					}
 				} else if err := st.Refresh(context.Background()); err != nil {
-					fail("poll-fails", err.Error(), nil)
-					st.Close()
-					return
+					expected := false
+					for n := range gone {
+						if s := m[n]; s != nil && s.present {
+							expected = true // the service said "not found" for a secret the store holds: the poll reports it
+						}
+					}
+					if !expected {
+						fail("poll-fails", err.Error(), nil)
+						st.Close()
+						return
+					}
+					r.Count("polls_with_not_found", 1)
+					// an unknown-to-the-service secret is an error, not a reason to forget it (unless the rule allows the drop anyway)
 				}
 				r.Count("polls", 1)
 				ev = fmt.Sprintf("poll at %d", now)
@@ -395,7 +417,7 @@ func runCase(t *testing.T, r *evid.Run, idx int) {
 					asked[q.Name] = true
 				}
 				for n, s := range m {
-					if s.present && !s.droppable && !asked[n] && n != grabbed { // a name pinned mid-poll is covered from the next poll on
+					if s.present && !s.droppable && !asked[n] && n != grabbed && len(gone) == 0 { // a name pinned mid-poll is covered from the next poll on
 						fail("kept-secret-not-polled", fmt.Sprintf("%q is in the store and may not expire, but the poll did not ask the service for it", n), nil)
 						st.Close()
 						return
